@@ -56,9 +56,18 @@ where
     let vals = values(c.bpp, c.values == 1);
     obs.count("store_load_evaluations", vals.len() as u64);
     obs.nontrivial_if(in_range);
-    for v in vals {
+    // every value is also built from a u32 with all bits above the type's width set: from_u32 documents that only
+    // the least significant bits are used
+    let excess: u32 = if c.bpp == 32 { 0 } else { !((1u32 << c.bpp) - 1) };
+    let his: Vec<u32> = if excess == 0 { vec![0] } else { vec![0, excess] };
+    for (v, hi) in vals.iter().flat_map(|v| his.iter().map(move |h| (*v, *h))) {
+        let raw = R::from_u32(v | hi);
+        if raw.into_inner().into() != v {
+            obs.fail("from_u32-keeps-only-the-low-bits", format!("from_u32({:#x}).into_inner() = {:#x}", v | hi, raw.into_inner().into()));
+        }
+        obs.class_if(hi != 0, "from_u32-with-excess-bits");
         let mut buf = bg.clone();
-        let r = R::from_u32(v).store::<BO>(&mut buf, idx);
+        let r = raw.store::<BO>(&mut buf, idx);
         match model_store(&bg, c.bpp, c.be, index, v) {
             Some(exp) => {
                 if r.is_err() {
@@ -242,11 +251,11 @@ fn main() {
     egverif::fw::main(Prop {
         id: "C11",
         level: "model_checking",
-        rule: "store/load: every (type, order, buffer length, index, background) of the listed product, with every listed value inside the case (counter store_load_evaluations), compared with a bit-level model written from the documented layout; iterator: explicit-state search over all next()/nth(k) sequences to the depth bound (each sequence is its own state), every item compared with load(model cursor), size_hint checked at every state; the whole domain is run in the overflow-checked and in the plain release build",
+        rule: "store/load: every (type, order, buffer length, index, background) of the listed product, with every listed value inside the case (counter store_load_evaluations; each value built by from_u32 from the value itself and from the value with all higher bits set), compared with a bit-level model written from the documented layout; iterator: explicit-state search over all next()/nth(k) sequences to the depth bound (each sequence is its own state), every item compared with load(model cursor), size_hint checked at every state; the whole domain is run in the overflow-checked and in the plain release build",
         assumptions: &["layout model written from the documentation, independent of the library's bit_position", "bounded buffer lengths and depth; 24/32-bit values are a boundary set"],
         parts: |_| vec![PartSpec::new("checked", "verif"), PartSpec::new("unchecked", "release")],
         run_part,
-        required_classes: |_| vec!["index-in-range", "index-just-past-the-end", "wrap-around-index", "big-endian-lsb0", "iterator-exhausted", "nth-skips"],
+        required_classes: |_| vec!["index-in-range", "index-just-past-the-end", "wrap-around-index", "big-endian-lsb0", "from_u32-with-excess-bits", "iterator-exhausted", "nth-skips"],
         crash_is_verdict: false,
     })
 }
